@@ -569,7 +569,7 @@ def pes_mutants(rng, b):
     for v in (0x00, 0x7F, 0x80, 0x8F, 0x90):
         m = bytearray(b); m[start + 6] = v
         out.append(bytes(m))
-    for v in (0, 1, b[start + 8] + 1, 200, 255):
+    for v in (0, 1, (b[start + 8] + 1) % 256, 200, 255):
         m = bytearray(b); m[start + 8] = v
         out.append(bytes(m))
     return out
